@@ -912,6 +912,50 @@ def run_route(c):
             except BaseException as ex:  # noqa
                 sc[op][rn] = "exc:" + exc_name(ex) + ": " + str(ex)[:120]
     out["scal"] = sc
+    # the PARAMETERS of a base message in every representation of the same reals (int, np.int64, np.float32, 0-d array;
+    # int64 / float32 arrays): every query against the message built from python floats / a float64 array
+    if c.get("pint"):
+        cls = FAMS[c["pfam"]]
+        P = [[float(unhex(h)) for h in col] for col in c["pint"]]
+        x0 = unhex(c["px"])
+
+        def queries(mm):
+            xx = np.full(mm.shape, x0) if mm.shape else x0
+            q = {}
+            for name, f in (("natural_parameters", lambda: mm.natural_parameters), ("logpdf", lambda: mm.logpdf(xx)),
+                            ("pow2", lambda: (mm ** 2.0).parameters), ("mul", lambda: (mm * mm).parameters),
+                            ("divmul", lambda: ((mm * mm) / mm).parameters), ("mean", lambda: mm.mean),
+                            ("variance", lambda: mm.variance), ("log_partition", lambda: mm.log_partition),
+                            ("value_for", lambda: mm.value_for(0.25) if hasattr(mm, "cdf") else 0.0),
+                            ("cdf", lambda: mm.cdf(xx) if hasattr(mm, "cdf") else 0.0), ("is_valid", lambda: mm.is_valid),
+                            ("shape", lambda: np.array(mm.shape, dtype=float))):
+                try:
+                    q[name] = [hexf(z) for z in np.asarray(f(), dtype=float).ravel()]
+                except BaseException as ex:  # noqa
+                    q[name] = "exc:" + exc_name(ex) + ": " + str(ex)[:100]
+            return q
+
+        pr = {}
+        if len(P[0]) == 1:
+            builders = [("float", lambda col: float(col[0])), ("int", lambda col: int(col[0])), ("i64", lambda col: np.int64(col[0])),
+                        ("f32", lambda col: np.float32(col[0])), ("0d", lambda col: np.array(col[0])),
+                        ("0d-int", lambda col: np.array(int(col[0])))]
+        else:
+            builders = [("float", lambda col: np.array(col, dtype=float)), ("i64", lambda col: np.array(col, dtype=np.int64)),
+                        ("f32", lambda col: np.array(col, dtype=np.float32)), ("i32", lambda col: np.array(col, dtype=np.int32))]
+        for rn, conv in builders:
+            try:
+                pr[rn] = queries(cls(*[conv(col) for col in P]))
+            except BaseException as ex:  # noqa
+                pr[rn] = "exc:" + exc_name(ex) + ": " + str(ex)[:100]
+        # mixed: the first parameter an int, the others floats
+        try:
+            mixed = [(int(P[0][0]) if len(P[0]) == 1 else np.array(P[0], dtype=np.int64))] + \
+                    [(float(col[0]) if len(col) == 1 else np.array(col, dtype=float)) for col in P[1:]]
+            pr["mixed"] = queries(cls(*mixed))
+        except BaseException as ex:  # noqa
+            pr["mixed"] = "exc:" + exc_name(ex) + ": " + str(ex)[:100]
+        out["prep"] = pr
     return out
 
 
